@@ -190,7 +190,13 @@ def gen_doc(rng, shape=None, max_subnets=5, max_hosts=4, n_public=None,
 # --------------------------------------------------------------------------
 # emitter
 # --------------------------------------------------------------------------
+class Q(str):
+    """A string that must be emitted quoted (so that it stays a string)."""
+
+
 def _scalar(v):
+    if isinstance(v, Q):
+        return '"' + str(v).replace('"', '\\"') + '"'
     if isinstance(v, bool):
         return "true" if v else "false"
     if isinstance(v, (int, float)):
